@@ -297,6 +297,58 @@ def judge_def(name, declT, prop, sig_pre):
     return out
 
 
+def exhibit_inconsistency(name, declT, prop, k=2, budget=4000):
+    """Evidence for the report (never a verdict): treat the defined constant as an unknown of its (monomorphic)
+    type; if no value of that type makes the accepted equation true under all assignments in all finite standard
+    models with type-variable sizes <= k, the extended theory has no standard model.  Returns a sentence or None."""
+    import itertools
+    from vlib import model
+    if ref.type_vars(declT, set()):
+        return None
+    unknown = ('var', '$' + name, declT)
+
+    def repl(t):
+        tag = t[0]
+        if tag == 'const' and t[1] == name and t[2] == declT:
+            return unknown
+        if tag == 'app':
+            return ('app', repl(t[1]), repl(t[2]))
+        if tag == 'lam':
+            return ('lam', t[1], t[2], repl(t[3]), t[4])
+        return t
+    p = repl(prop)
+    if any(c[1] == name for c in term_consts(p)):
+        return None
+    fv = sorted(ref.free_vars(p) - {unknown}, key=repr)
+    tv = sorted(ref.all_type_vars(p), key=repr)
+    survivors = None
+    try:
+        for sizes in itertools.product(range(1, k + 1), repeat=len(tv)):
+            M = model.Model(dict(zip(tv, sizes)))
+            dom_c = M.dom(declT)
+            if survivors is None:
+                survivors = set(range(len(dom_c)))
+            doms = [M.dom(v[2]) for v in fv]
+            total = len(dom_c)
+            for d in doms:
+                total *= len(d)
+            if total > budget:
+                return None
+            for i in sorted(survivors):
+                for vals in itertools.product(*doms):
+                    env = dict(zip(fv, vals))
+                    env[unknown] = dom_c[i]
+                    if not M.eval(p, env):
+                        survivors.discard(i)
+                        break
+            if not survivors:
+                return ('no value of type %s for %s satisfies the accepted equation in the finite standard models with '
+                        'type sizes <= %d: the extended theory is inconsistent' % (ref.show_type(declT), name, k))
+    except (model.Unsupported, ref.RefError, RecursionError):
+        return None
+    return None
+
+
 def _has_loose(t):
     return ref.is_open(t)
 
